@@ -118,7 +118,12 @@ void ThreadPool::clear() {
 }
 
 void ThreadPool::stop() {
-    m_isRunning = false;
+    {
+        // workers evaluate m_isRunning in their wait predicate under m_queueMutex
+        std::scoped_lock locker(m_queueMutex);
+        m_isRunning = false;
+    }
+
     m_condition.notify_all();
 
     {
